@@ -56,6 +56,14 @@ def proof_stage(ctx, pid, gen=(), extra_targets=("ovmjudge",), min_theorems=1):
         res["failures"].append(str(e)[:2000])
         return res
     res["axioms"] = ax
+    if ctx.tier == "thorough":
+        # independent re-check of the compiled property module by the toolchain's leanchecker (one module per call)
+        from .common import run
+        p = run(["lake", "env", "leanchecker", module], cwd=LEAN, check=False, timeout=3600)
+        res["leanchecker"] = "ok" if p.returncode == 0 else "FAILED"
+        if p.returncode != 0:
+            res["ok"] = False
+            res["failures"].append("leanchecker %s: %s" % (module, (p.stdout + p.stderr)[-800:]))
     for n in names:
         if n not in ax:
             res["ok"] = False
@@ -76,4 +84,5 @@ def proof_coverage(res):
         "checker_cmd": "lake build OVM.Props.<id> && lake env lean <#print axioms file> (Lean 4.33 kernel)",
         "trusted_base": ["Lean 4.33 kernel"] + ["axiom " + a for a in used],
         "theorems": res["theorems"],
+        **({"leanchecker": res["leanchecker"]} if "leanchecker" in res else {}),
     }
